@@ -31,6 +31,25 @@ func CompareU(a, b *UView, exact, supports bool) error {
 				return fmt.Errorf("split %s: support %v vs %v", a.Describe(k), sa.Sups, sb.Sups)
 			}
 		}
+		if supports && sa.N == 2 && sb.N == 1 && !sa.Trivial {
+			// the two root branches of a rooted tree merged into one (unrooting): "length of the new
+			// branch will be the sum of the two merged branches, and its support will be the
+			// maximum" (docs/commands/unroot.md) - of the supports that are there
+			switch {
+			case len(sa.Sups) == 0 && len(sb.Sups) != 0:
+				return fmt.Errorf("split %s: the merged root branch has support %v, the two root branches had none", a.Describe(k), sb.Sups)
+			case len(sa.Sups) > 0:
+				max := sa.Sups[0]
+				for _, v := range sa.Sups {
+					if v > max {
+						max = v
+					}
+				}
+				if len(sb.Sups) != 1 || sb.Sups[0] != max {
+					return fmt.Errorf("split %s: the two root branches carried the supports %v, the merged branch carries %v (documented: the maximum)", a.Describe(k), sa.Sups, sb.Sups)
+				}
+			}
+		}
 	}
 	for k := range b.Splits {
 		if _, ok := a.Splits[k]; !ok {
